@@ -138,8 +138,8 @@ theorem C09_stanza (id : Nat) (name : List Char) (obs : Bool) (repl : Option Nat
     (hid : id < 4294967296) (hrepl : ∀ r, repl = some r → r < 4294967296)
     (hpar : ∀ p ∈ parents, p.1 < 4294967296) (hok : StanzaOk name parents extras1 extras2) :
     parseBlock (renderStanza id name obs repl parents extras1 extras2) =
-      .ok (.term { id := id, name := name, obsolete := obs, replacement := repl } (parents.map (·.1))) :=
-  parseBlock_stanza id name obs repl parents extras1 extras2 hid hrepl hpar hok
+      .ok (.term { id := id, name := name, obsolete := obs, replacement := repl } (parents.map (·.1))) := by
+  simpa using parseBlock_stanza id name obs repl parents extras1 extras2 hid hrepl hpar hok [] (Or.inl rfl)
 
 /-- a block that is neither a `[Term]` stanza nor the header contributes nothing … -/
 theorem C09_other_block (b : List Char) (h1 : stripPrefix termPrefix b = none)
@@ -160,8 +160,9 @@ theorem C09_version (pre post : List (List Char)) (y1 y2 y3 y4 m1 m2 d1 d2 : Nat
     (hd1 : d1 < 10) (hd2 : d2 < 10)
     (hpre : ∀ l ∈ pre, stripPrefix versionPrefix l = none) (hok : ∀ l ∈ pre ++ post, LineOk l) :
     parseBlock (joinWith '\n' (headerLines pre post y1 y2 y3 y4 m1 m2 d1 d2)) =
-      .ok (.header (1000 * y1 + 100 * y2 + 10 * y3 + y4, 10 * m1 + m2, 10 * d1 + d2)) :=
-  parseBlock_header pre post y1 y2 y3 y4 m1 m2 d1 d2 hy1 hy2 hy3 hy4 hm1 hm2 hd1 hd2 hpre hok
+      .ok (.header (1000 * y1 + 100 * y2 + 10 * y3 + y4, 10 * m1 + m2, 10 * d1 + d2)) := by
+  simpa using parseBlock_header pre post y1 y2 y3 y4 m1 m2 d1 d2 hy1 hy2 hy3 hy4 hm1 hm2 hd1 hd2 hpre hok []
+    (Or.inl rfl)
 
 /-! ## whole files -/
 
@@ -177,7 +178,7 @@ theorem C09_lex_lines (rows : List (List Char)) (ending : List Char) (h : ∀ l 
   lines_rows rows ending h hend
 
 /-- A whole rendered `hp.obo` — header block, then `[Term]` stanzas and other stanzas (`items` is
-ANY list, hence any order and any mixture), separated by blank lines — is read as exactly the
+ANY list, hence any order and any mixture), separated by blank lines, ending with nothing, a line feed, or a blank line — is read as exactly the
 term stanzas in file order, each with its name, obsolete flag, replacement and `is_a` parents,
 plus the release version. -/
 theorem C09_obo_file (pre post : List (List Char)) (y1 y2 y3 y4 m1 m2 d1 d2 : Nat)
@@ -185,7 +186,7 @@ theorem C09_obo_file (pre post : List (List Char)) (y1 y2 y3 y4 m1 m2 d1 d2 : Na
     (hd1 : d1 < 10) (hd2 : d2 < 10)
     (hpre : ∀ l ∈ pre, stripPrefix versionPrefix l = none) (hok : ∀ l ∈ pre ++ post, LineOk l)
     (items : List Item) (hitems : ∀ i ∈ items, i.Ok) (ending : List Char)
-    (hend : ending = [] ∨ ending = blankLine) :
+    (hend : ending = [] ∨ ending = ['\n'] ∨ ending = blankLine) :
     readObo (joinStr blankLine
         (joinWith '\n' (headerLines pre post y1 y2 y3 y4 m1 m2 d1 d2) :: items.map Item.render) ++ ending) =
       .ok { terms := itemsTerms items,
@@ -224,16 +225,16 @@ Full statement `C09_file` (NOT proved here, `_partial`):
 (observational equality of the dumps). The missing step — `buildFromFacts` does not depend on the
 order of its stanzas and rows and agrees with the checked `add_parent` API and with the binary
 loader — is the statement of C16 about the Builder model; for C09 it rests on the correspondence
-check (`same 0 1`, `same 0 2` on every well-formed generated case). Also not covered by the
-theorem, only by the check: an obo file ending in a single line feed after the last stanza, rows
-with trailing empty columns are covered (`IsTail`). -/
+check (`same 0 1`, `same 0 2` on every well-formed generated case). The three file endings the
+generator emits (nothing / one line feed / line feed + blank line after the last block; nothing /
+one line feed after the last row) and rows with trailing empty columns (`IsTail`) are covered. -/
 theorem C09_file_partial (tr : Bool)
     (pre post : List (List Char)) (y1 y2 y3 y4 m1 m2 d1 d2 : Nat)
     (hy1 : y1 < 10) (hy2 : y2 < 10) (hy3 : y3 < 10) (hy4 : y4 < 10) (hm1 : m1 < 10) (hm2 : m2 < 10)
     (hd1 : d1 < 10) (hd2 : d2 < 10)
     (hpre : ∀ l ∈ pre, stripPrefix versionPrefix l = none) (hok : ∀ l ∈ pre ++ post, LineOk l)
     (items : List Item) (hitems : ∀ i ∈ items, i.Ok) (oboEnd : List Char)
-    (hoboEnd : oboEnd = [] ∨ oboEnd = blankLine)
+    (hoboEnd : oboEnd = [] ∨ oboEnd = ['\n'] ∨ oboEnd = blankLine)
     (hdr : List Char) (grows : List GRow) (geneEnd : List Char) (hnl : '\n' ∉ hdr)
     (hh : startsWith ['#'] hdr = true ∨ startsWith hdrNcbi hdr = true ∨ startsWith hdrHpo hdr = true)
     (hg : ∀ r ∈ grows, r.Ok) (hgeneEnd : RowsEnd grows geneEnd)
